@@ -57,7 +57,7 @@ def param_rejections(run):
             continue
         if subterms(t, lambda x: x and x[0] in ("PBKDF2", "ARGON2", "H", "MAC", "ENC", "HKDF", "HST", "MACST")):
             continue    # downstream of the KDF: the library's verdict on derived material, not a parameter test
-        atoms = paramcanon.canon(t, None if cause is not None else g["value"])
+        atoms = paramcanon.canon(t, None if cause is not None else g["value"], None if cause is not None else g.get("arms"))
         if atoms is None:
             out.append(("unrecognised", s))
         else:
@@ -149,20 +149,26 @@ def run(ctx):
                     fixed += wv
             probs6 = []
             keyfield = None
+            def is_local_key(inner):
+                return isinstance(inner, tuple) and inner[0] == "fld" and inner[1] == ("fld", ("in", "self"), 0)
             for p in var:
                 inner = p[2] if (isinstance(p, tuple) and p[0] == "ENC") else p
-                if op == "pke":
-                    pass
                 if isinstance(inner, tuple) and inner[0] == "call" and inner[1].endswith("HasKey<K>>::encode"):
                     keyfield = p
-                elif isinstance(inner, tuple) and inner[0] == "fld" and inner[1] == ("fld", ("in", "self"), 0):
-                    keyfield = p   # PKE: the 32-byte local key array itself
+                elif is_local_key(inner):
+                    keyfield = p   # PKE: the 32-byte local key array itself (width not known to the evaluator)
                     fixed += 32
                 else:
                     probs6.append("variable-width field in the blob: " + fmt_n(p)[:200])
-            if op != "pke" and keyfield is None:
+            if op == "pke" and keyfield is None:
+                # the evaluator learnt the key array's width from its type: the field is among the fixed-width ones
+                for p in parts:
+                    inner = p[2] if (isinstance(p, tuple) and p[0] == "ENC") else p
+                    if is_local_key(inner) and nm.width(p) == 32:
+                        keyfield = p
+            if keyfield is None:
                 probs6.append("no field carrying the encrypted encoded key")
-            if fixed != OVERHEAD[(op, be)] + (32 if op == "pke" and keyfield is not None else 0) and not probs6:
+            if fixed != OVERHEAD[(op, be)] + (32 if op == "pke" else 0) and not probs6:
                 probs6.append(f"fixed-width fields sum to {fixed}, the format prescribes {OVERHEAD[(op, be)]}" + (" + 32" if op == "pke" else ""))
             ctx.add("R05.6", f"C05/fixed-length/{key}", not probs6, "; ".join(probs6), site_of(wrapf) if wrapf else None,
                     {"parts": [fmt_n(p)[:80] + f" :{nm.width(p)}" for p in parts]})
